@@ -7,6 +7,12 @@
  * known (symbolic) index; for them strlen is exact and deterministic.
  */
 #include "verif_prelude.h"
+#ifdef VERIF_TAGS
+#include "verif_ds.h"     /* ghost taint table + record of the last snprintf call (C02/C12 data-source runs) */
+#define TAGCOPY(d, s) verif_tag(d, verif_tag_of(s))
+#else
+#define TAGCOPY(d, s) ((void)0)
+#endif
 #include <limits.h>
 #include <strings.h>
 #define OBJSZ(p) __CPROVER_OBJECT_SIZE(p)
@@ -52,7 +58,7 @@ char *strcpy(char *d, const char *s){
   size_t sl = strlen(s);
   __CPROVER_assert(__CPROVER_w_ok(d, sl + 1), "strcpy: destination has room for source and NUL");
   __CPROVER_havoc_slice(d, sl + 1);
-  d[sl] = 0;
+  d[sl] = 0; TAGCOPY(d, s);
   return d;
 }
 char *strncpy(char *d, const char *s, size_t n){
@@ -61,6 +67,7 @@ char *strncpy(char *d, const char *s, size_t n){
   size_t sl = strnlen(s, n);
   __CPROVER_havoc_slice(d, n);
   if (sl < n) d[sl] = 0;
+  TAGCOPY(d, s);
   return d;
 }
 #ifndef VERIF_CONTENT_STRCMP
@@ -118,7 +125,7 @@ char *strdup(const char *s){
   size_t l = strlen(s);
   char *p = malloc(l + 1);
   __CPROVER_havoc_slice(p, l + 1);
-  p[l] = 0;
+  p[l] = 0; TAGCOPY(p, s);
   return p;
 }
 char *strndup(const char *s, size_t n){
@@ -191,10 +198,21 @@ int verif_snprintf_core(char *buf, size_t n, const char *fmt, int nargs, verif_a
   if (n > 0) {
     size_t w = full < n ? full : n - 1;
     if (full >= n) verif_snprintf_truncated = 1;
+#ifndef VERIF_SNPRINTF_NOHAVOC
     __CPROVER_havoc_slice(buf, n);
+#else
+    /* the destination's bytes keep their (arbitrary, never initialised) values: a slice havoc at a symbolic offset of a
+       symbolic-size MiB object is what exhausts the SAT back end in the vector walkers; only the terminator is stored */
+    __CPROVER_assert(__CPROVER_w_ok(buf, w + 1), "snprintf: bytes written lie inside the destination");
+#endif
     buf[w] = 0;
     if (verif_snprintf_register) { if (w > 0) __CPROVER_assume(buf[0] != 0); verif_set_string(buf, w); }
   } else verif_snprintf_truncated = 1;
+#ifdef VERIF_TAGS
+  verif_w.sn.buf = buf; verif_w.sn.n = n; verif_w.sn.fmt = fmt; verif_w.sn.nargs = nargs; verif_w.sn.a[0] = a0; verif_w.sn.a[1] = a1; verif_w.sn.a[2] = a2; verif_w.sn.a[3] = a3; verif_w.sn.a[4] = a4;
+  verif_w.sn.ret = (int)full; verif_w.sn.calls++;
+  if (n > 0) { if (nargs == 1 && a0.kind == 1 && fmt[0] == '%' && fmt[1] == 's' && fmt[2] == 0) TAGCOPY(buf, a0.s); else verif_tag(buf, nargs == 0 ? T_LITERAL : T_FORMATTED); }
+#endif
   return (int)full;
 }
 #endif
